@@ -177,7 +177,7 @@ CHECKS = {
     text='Same specification and driver: notification ids 1..5 in any order (repeated, skipped, out of order), before and after the accept, across '
          'drops and re-declared Ready. TLC checks NotifyP / ReadyP / DropP / QuietP on the model; on the real client TLC evaluates NotifyInOrder '
          '(delivered iff accepted and id = next; next = id + 1), ReadySetsNext, ResumePointSurvives, NotifyAllInOrder (in-sync and headers '
-         'notifications in order), NothingElseDelivered and HandlersAgree (two registered handlers see the same sequence) after every step. Added: spec/HandlerQueue.tla - a held / slow application handler, backlog across a reconnect; every notification carries the service\'s send number and the handler must see them in that order.',
+         'notifications in order), NothingElseDelivered and HandlersAgree (two registered handlers see the same sequence) after every step. Added: spec/HandlerQueue.tla - a held / slow application handler, backlog across a reconnect; every notification carries the service\'s send number and the handler must see them in that order. Added: action Stall of spec/ReceiveBacklog.tla (the application stays stuck for longer than the message channel time-out behind a full handler queue): CountedAreDelivered model-checked on SpecStall and evaluated on the real client driven with a 400 ms time-out (found F43, repaired).',
     design_ref='DESIGN.md 5.8, 6 (C17), 14',
     note='F21 (tx data delivered before the accept) repaired. One scripted service; handler callbacks are recorded under a mutex in callback order.',
     technique='TLA+ spec + TLC exhaustive + scenario replay against the real client with trace validation'),
